@@ -163,6 +163,12 @@ def run_args(case, tags):
         combos.append(("sync:three-kinds:tilde", sync_argv({k: tilde(v) for k, v in paths.items()}, truth, KEYS), "accept"))
         combos.append(("sync:three-kinds:relative", sync_argv({k: os.path.basename(v) for k, v in paths.items()}, truth, KEYS), "accept"))
         combos.append(("sync_properties:input-missing:tilde", sp(tilde(missing), outp), "reject"))
+        # --- a directory where a file is expected
+        adir = os.path.join(d, "a_package")
+        os.mkdir(adir)
+        combos.append(("sync:truth-is-directory", sync_argv(dict(paths, **{truth: adir}), truth, KEYS), "reject"))
+        combos.append(("sync_properties:input-is-directory", sp(adir, outp), "reject"))
+        combos.append(("sync_properties:output-is-directory", sp(inp, adir), "reject"))
         sys.path.insert(0, d)
         old_home, old_cwd = os.environ.get("HOME"), os.getcwd()
         os.environ["HOME"] = d
